@@ -14,6 +14,9 @@
 // ext.go: the same clauses on the types outside the lattice universe (Callable with parameters, return type
 // and block, Init, Like, TypeReference, Iterator, Runtime, aliases, Object), and the model tie of the
 // Callable describer (coq/Model/DescribeCallable.v, px.VerifDescribeTyped).
+// alias.go: expected types that are graphs of type aliases (fan-in, cycles), every call in a child process under a
+// deadline (a call that does not return violates clause total), and the model tie of the walk that describe makes
+// over the expected type (coq/Model/DescribeWalk.v).
 package main
 
 import (
@@ -49,7 +52,10 @@ func main() {
 		"return type / block (bounded-exhaustive family + seeded random over random lattice types, blocks to depth 2), Init, Like, " +
 		"TypeReference, Iterator, Iterable, Runtime, aliases of every described kind, Object and the parsed parameterised types, each also " +
 		"below Optional/NotUndef/Type/Variant/Array/Tuple/Hash/Struct/Callable; all ordered pairs of it and both directions against a sample " +
-		"of the lattice pool; non-trivial there: not assignable, expected not Any, actual neither Any nor Unit"
+		"of the lattice pool; non-trivial there: not assignable, expected not Any, actual neither Any nor Unit. Alias graphs (alias.go): " +
+		"ladders of 1-48 alias levels with fan-in 1-4 through 7 constructors, chains, diamonds, wide fan-in, recursive and mutually recursive " +
+		"aliases, seeded random graphs, built by constructor and by type declarations, against 9 actual types, a second copy of the graph and " +
+		"3 values, in a child process under a deadline; non-trivial there: a not assignable (graph, actual type) pair"
 	pcore.Do(func(c px.Context) {
 		if *aworkerFlag {
 			aworkerMain() // alias.go: the child process that makes the calls on alias graphs
